@@ -168,7 +168,9 @@ def cell_1x1(chk, tab, mm, *, variant, mode, delayed, sp, sn, dt, dyadic, d, B, 
         scale = rng.choice([1.0, 0.5]) if three else 1.0
         if three and persample:
             rs = [rng.choice(RTOK) for _ in range(B)]
-            signal = torch.tensor([r * unit for r in rs], dtype=torch.float32)
+            # (whole-number rewards also as an INTEGER tensor, e.g. +-1 straight from torch.randint: the scale stays fractional)
+            sdt = torch.int64 if (unit == 1.0 and rng.random() < 0.4) else torch.float32
+            signal = torch.tensor([r * unit for r in rs], dtype=sdt)
         else:
             r = rng.choice(RTOK) if three else 1
             rs = [r] * B
